@@ -57,9 +57,19 @@ def parse(log_text: str, root: str) -> list[Op]:
     """Keep operations on paths inside `root`."""
     ops: list[Op] = []
     root_b = root.rstrip("/") + "/"
+    # files created elsewhere (e.g. a temp file in another directory) and later renamed / linked into root
+    extra: set[str] = set()
+    for line in log_text.splitlines():
+        if "rename" in line or "link" in line:
+            match = LINE.match(line)
+            if match and match.group(2) in ("rename", "renameat", "renameat2", "link", "linkat"):
+                names = [unhex(x).decode("utf-8", "surrogateescape")
+                         for x in re.findall(r'"((?:\\x[0-9a-f]{2})*)"', match.group(3))]
+                if len(names) >= 2 and os.path.normpath(names[1]).startswith(root_b) and names[0].startswith("/"):
+                    extra.add(os.path.normpath(names[0]))
 
     def inside(path: str) -> bool:
-        return path.startswith(root_b) or path == root.rstrip("/")
+        return path.startswith(root_b) or path == root.rstrip("/") or path in extra
 
     for line in log_text.splitlines():
         match = LINE.match(line)
